@@ -92,12 +92,12 @@ package fsm
 //@ func singleLookup
 //@   results resp, err
 //@   requires reader != nil && req != nil
-//@   ensures [C01.single.absent]  err == nil && !reader.vP[encK(1, bytesOf(req.Key))] ==> resp != nil && len(resp.Kvs) == 0 && resp.Count == 0 && !resp.More
-//@   ensures [C01.single.count]   err == nil && reader.vP[encK(1, bytesOf(req.Key))] ==> resp != nil && resp.Count == 1 && !resp.More && (req.CountOnly ==> len(resp.Kvs) == 0)
-//@   ensures [C01.single.pair]    err == nil && reader.vP[encK(1, bytesOf(req.Key))] && !req.CountOnly ==> len(resp.Kvs) == 1 && resp.Kvs[0] != nil && bytesOf(resp.Kvs[0].Key) == bytesOf(req.Key)
-//@   ensures [C01.single.value]   err == nil && reader.vP[encK(1, bytesOf(req.Key))] && !req.CountOnly && !req.KeysOnly ==> bytesOf(resp.Kvs[0].Value) == reader.vV[encK(1, bytesOf(req.Key))]
-//@   ensures [C01.single.keyonly] err == nil && reader.vP[encK(1, bytesOf(req.Key))] && !req.CountOnly && req.KeysOnly ==> len(resp.Kvs[0].Value) == 0
-//@   ensures [C01.single.fresh]   err == nil ==> fresh(resp)
+//@   ensures [C01.single.absent+C02+C10]  err == nil && !reader.vP[encK(1, bytesOf(req.Key))] ==> resp != nil && len(resp.Kvs) == 0 && resp.Count == 0 && !resp.More
+//@   ensures [C01.single.count+C02+C10]   err == nil && reader.vP[encK(1, bytesOf(req.Key))] ==> resp != nil && resp.Count == 1 && !resp.More && (req.CountOnly ==> len(resp.Kvs) == 0)
+//@   ensures [C01.single.pair+C02+C10]    err == nil && reader.vP[encK(1, bytesOf(req.Key))] && !req.CountOnly ==> len(resp.Kvs) == 1 && resp.Kvs[0] != nil && bytesOf(resp.Kvs[0].Key) == bytesOf(req.Key)
+//@   ensures [C01.single.value+C02+C10]   err == nil && reader.vP[encK(1, bytesOf(req.Key))] && !req.CountOnly && !req.KeysOnly ==> bytesOf(resp.Kvs[0].Value) == reader.vV[encK(1, bytesOf(req.Key))]
+//@   ensures [C01.single.keyonly+C02+C10] err == nil && reader.vP[encK(1, bytesOf(req.Key))] && !req.CountOnly && req.KeysOnly ==> len(resp.Kvs[0].Value) == 0
+//@   ensures [C01.single.fresh+C02+C10]   err == nil ==> fresh(resp)
 //@   modifies nothing
 
 // ---------------------------------------------------------------- write handlers (C01)
@@ -382,15 +382,15 @@ package fsm
 //@   results resp, err
 //@   requires ctx != nil && del != nil && ctx.batch != nil && ctx.db != nil && ctx.batch.bdb == ctx.db && ctx.batch != ctx.db
 //@   before pebble.(*Batch).DeleteRange assert isW(end) ==> bytesOf(end) == Wb()
-//@   ensures [C01.del.single+C03] err == nil && isNilSlice(del.RangeEnd) ==> forall k Bytes :: ctx.batch.vP[k] == (k == encK(1, bytesOf(del.Key)) ? false : old(ctx.batch.vP[k]))
-//@   ensures [C01.del.range+C12]  err == nil && !isNilSlice(del.RangeEnd) ==> forall k Bytes :: ctx.batch.vP[k] == (inRange(k, encK(1, bytesOf(del.Key)), (isWildcard(del.RangeEnd) ? Wb() : encK(1, bytesOf(del.RangeEnd)))) ? false : old(ctx.batch.vP[k]))
-//@   ensures [C01.del.values+C03] err == nil ==> forall k Bytes :: ctx.batch.vP[k] ==> ctx.batch.vV[k] == old(ctx.batch.vV[k])
+//@   ensures [C01.del.single+C02+C03] err == nil && isNilSlice(del.RangeEnd) ==> forall k Bytes :: ctx.batch.vP[k] == (k == encK(1, bytesOf(del.Key)) ? false : old(ctx.batch.vP[k]))
+//@   ensures [C01.del.range+C02+C12]  err == nil && !isNilSlice(del.RangeEnd) ==> forall k Bytes :: ctx.batch.vP[k] == (inRange(k, encK(1, bytesOf(del.Key)), (isWildcard(del.RangeEnd) ? Wb() : encK(1, bytesOf(del.RangeEnd)))) ? false : old(ctx.batch.vP[k]))
+//@   ensures [C01.del.values+C02+C03] err == nil ==> forall k Bytes :: ctx.batch.vP[k] ==> ctx.batch.vV[k] == old(ctx.batch.vV[k])
 //@   ensures [C01.del.count1] err == nil && isNilSlice(del.RangeEnd) && (del.Count || del.PrevKv) ==> resp != nil && resp.Deleted == (old(ctx.batch.vP[encK(1, bytesOf(del.Key))]) ? 1 : 0)
 //@   ensures [C01.del.countN] err == nil && !isNilSlice(del.RangeEnd) && del.Count && !del.PrevKv ==> resp != nil && resp.Deleted == cnt(old(ctx.batch.vP), encK(1, bytesOf(del.Key)), (isWildcard(del.RangeEnd) ? Wb() : encK(1, bytesOf(del.RangeEnd))))
 //@   ensures [C01.del.prevN]  err == nil && !isNilSlice(del.RangeEnd) && del.PrevKv ==> resp != nil && resp.Deleted == cnt(old(ctx.batch.vP), encK(1, bytesOf(del.Key)), (isWildcard(del.RangeEnd) ? Wb() : encK(1, bytesOf(del.RangeEnd))))
 //@   ensures [C01.del.prevN.pairs] err == nil && !isNilSlice(del.RangeEnd) && del.PrevKv ==> resp != nil && len(resp.PrevKvs) == resp.Deleted      // previous pairs are returned whenever asked for, also together with the count flag
 //@   ensures [C01.del.nocount] err == nil && !(del.Count || del.PrevKv) ==> resp != nil && resp.Deleted == 0 && len(resp.PrevKvs) == 0
-//@   ensures [C01.del.book+C03+C12]   err == nil ==> bookSame(ctx.batch.vP, ctx.batch.vV, old(ctx.batch.vP), old(ctx.batch.vV))
+//@   ensures [C01.del.book+C02+C03+C12]   err == nil ==> bookSame(ctx.batch.vP, ctx.batch.vV, old(ctx.batch.vP), old(ctx.batch.vV))
 //@   ensures ctx.index == old(ctx.index) && ctx.leaderIndex == old(ctx.leaderIndex) && ctx.db == old(ctx.db)
 //@   ensures (ctx.batch == old(ctx.batch) || fresh(ctx.batch)) && ctx.batch != ctx.db && (err == nil ==> ctx.batch != nil && ctx.batch.bdb == ctx.db)
 //@   modifies ctx.batch, ctx.batch.vP, ctx.batch.vV
